@@ -10,6 +10,7 @@ import (
 	"fmt"
 	"hash/fnv"
 	"os"
+	"path/filepath"
 	"sort"
 	"strconv"
 	"sync"
@@ -251,23 +252,30 @@ var (
 
 func loadFindings() {
 	findings = map[string]finding{}
-	p := os.Getenv("VERIF_KNOWN")
-	if p == "" {
-		return
+	var paths []string
+	if p := os.Getenv("VERIF_KNOWN"); p != "" {
+		paths = append(paths, p)
 	}
-	b, err := os.ReadFile(p)
-	if err != nil {
-		return
+	if root := os.Getenv("VERIF_ROOT"); root != "" {
+		more, _ := filepath.Glob(filepath.Join(root, "known_findings.d", "*.json"))
+		sort.Strings(more)
+		paths = append(paths, more...)
 	}
-	var doc struct {
-		Findings []finding `json:"findings"`
-	}
-	if json.Unmarshal(b, &doc) != nil {
-		return
-	}
-	for _, f := range doc.Findings {
-		if f.Status == "known" {
-			findings[f.Signature] = f
+	for _, p := range paths {
+		b, err := os.ReadFile(p)
+		if err != nil {
+			continue
+		}
+		var doc struct {
+			Findings []finding `json:"findings"`
+		}
+		if json.Unmarshal(b, &doc) != nil {
+			continue
+		}
+		for _, f := range doc.Findings {
+			if f.Status == "known" {
+				findings[f.Signature] = f
+			}
 		}
 	}
 }
